@@ -302,6 +302,7 @@ theorem handler_lastClaimed {c : Cfg} {s s' : St} {e : Env} {op : Op} {m : List 
   | expandFlow id a amt en => rw [expandFlow_lastClaimed h1]
   | closeFlow id => rw [closeFlow_lastClaimed h1]
   | helperDeposit a0 a1 dur => cases h1
+  | helperDepositAs x0 x1 a0 a1 dur => cases h1
   | claim =>
     have hs : e.sender ≠ u := fun he => hne ⟨rfl, he⟩
     have h2 : claimExec s e = .ok (s', m) := h1
